@@ -63,7 +63,8 @@ def DateOffset.apply (o : DateOffset) (d : Int) : M Int :=
     let r := addDaysSat d1 diff
     if weekday r == target % 7 || r == maxDay then .ok r else .error "day.rs:DateOffset::apply debug_assert next"
 
-/-- `valid_ymd_before` / `valid_ymd_after`: candidates `day-1, …, 28` after the exact date -/
+/-- `valid_ymd_before` / `valid_ymd_after`: candidates `day-1, …, 28` after the exact date; `none` when
+no candidate can be built, which is the case exactly for a year chrono cannot represent -/
 def firstValidBelow (y : Int) (m : Nat) (succ : Bool) : Nat → Option Day
   | 0 => none
   | d + 1 =>
@@ -72,15 +73,15 @@ def firstValidBelow (y : Int) (m : Nat) (succ : Bool) : Nat → Option Day
       | some r => if succ then (match succ? r with | some r' => some r' | none => firstValidBelow y m succ d) else some r
       | none => firstValidBelow y m succ d
 
-def validYmdBefore (y : Int) (m d : Nat) : Day :=
+def validYmdBefore (y : Int) (m d : Nat) : Option Day :=
   match ofYmd? y m d with
-  | some r => r
-  | none => (firstValidBelow y m false (d - 1)).getD dateEnd
+  | some r => some r
+  | none => firstValidBelow y m false (d - 1)
 
-def validYmdAfter (y : Int) (m d : Nat) : Day :=
+def validYmdAfter (y : Int) (m d : Nat) : Option Day :=
   match ofYmd? y m d with
-  | some r => r
-  | none => (firstValidBelow y m true (d - 1)).getD dateEnd
+  | some r => some r
+  | none => firstValidBelow y m true (d - 1)
 
 /-- `ensure_increasing_iter` -/
 def ensureIncAux (last : Day) : List Day → List Day
@@ -96,12 +97,12 @@ theorem length_dropWhile_le {α} (p : α → Bool) (l : List α) : (l.dropWhile 
   | nil => simp
   | cons x xs ih => simp only [List.dropWhile]; split <;> simp <;> omega
 
-/-- `intervals_from_bounds` on already increasing bounds; inclusive intervals.
+/-- `intervals_from_bounds` on already increasing bounds; inclusive intervals.  Once the starts are
+used up the stream ends: an end without a start before it closes nothing.
 The `unreachable!()` arm (start > end after the skip) cannot be taken: ends below the start were
 just dropped. -/
 def intervalsGo : List Day → List Day → List (Day × Day)
-  | [], [] => []
-  | [], e :: es => (dateStart, e) :: intervalsGo [] es
+  | [], _ => []
   | s :: ss, es =>
     match h : es.dropWhile (· < s) with
     | [] => (s, dateEnd) :: intervalsGo ss []
@@ -182,9 +183,9 @@ def monthNext (m : Nat) : Nat := m % 12 + 1
 def dateOnYear (ds : DateSpec) (forYear : Int) (after : Bool) : M (Option Day) :=
   match ds with
   | .easter y => easter (match y with | some y => (y : Int) | none => forYear)
-  | .fixed none m d => .ok (some (if after then validYmdAfter forYear m d else validYmdBefore forYear m d))
+  | .fixed none m d => .ok (if after then validYmdAfter forYear m d else validYmdBefore forYear m d)
   | .fixed (some y) m d =>
-    if (y : Int) = forYear then .ok (some (if after then validYmdAfter y m d else validYmdBefore y m d))
+    if (y : Int) = forYear then .ok (if after then validYmdAfter y m d else validYmdBefore y m d)
     else .ok none
 
 /-- projections of a bound on the years `ys`, shifted by its offset -/
